@@ -28,13 +28,17 @@ class Git:
         """
         Returns `True` if the project uses git.
         """
-        result = subprocess.run(
-            ["git", "rev-parse", "--git-dir"],
-            cwd=self._project_root,
-            check=False,
-            stdout=subprocess.DEVNULL,
-            stderr=subprocess.DEVNULL,
-        )
+        try:
+            result = subprocess.run(
+                ["git", "rev-parse", "--git-dir"],
+                cwd=self._project_root,
+                check=False,
+                stdout=subprocess.DEVNULL,
+                stderr=subprocess.DEVNULL,
+            )
+        except FileNotFoundError:
+            # There is no `git` executable on this machine.
+            return False
         return result.returncode == 0
 
     def current_commit(self) -> Optional[Commit]:
